@@ -113,6 +113,47 @@ pub fn compare(text: &str, want: &Ast, ops: &OpSet, stage: &str, out: &mut Worke
     }
 }
 
+/// Stage "reregister": one fresh process per history of <= 3 registrations of the infix
+/// operator `xop` (precedence / associativity from C12's list), optionally with every
+/// re-registration made by another thread; after every step every tree of <= 3 infix nodes
+/// over {xop, *, +, in}, printed minimally and fully parenthesised under the table of that
+/// moment, must parse to exactly that tree.
+fn run_rereg(h: &[(i32, bool)], xthread: bool, out: &mut WorkerOut) {
+    use crate::gen::{relabel, trees_by_size, Kind};
+    use crate::model::lex::InfixInfo;
+    use expression_engine::{InfixOpAssociativity, InfixOpType};
+    use std::sync::Arc;
+    let kinds: Vec<Kind> = ["xop", "*", "+", "in"].iter().map(|o| Kind::Infix(o.to_string())).collect();
+    let trees = trees_by_size(&kinds, 3);
+    let rot = crate::gen::leaf_rotation();
+    let mut ops = OpSet::builtin();
+    let tail = if xthread { " re-registrations by another thread" } else { "" };
+    for (step, (prec, left)) in h.iter().enumerate() {
+        let (p, l) = (*prec, *left);
+        let reg = move || expression_engine::register_infix_op("xop", p, InfixOpType::CALC, if l { InfixOpAssociativity::LEFT } else { InfixOpAssociativity::RIGHT }, Arc::new(|a, _| Ok(a)));
+        if xthread && step > 0 {
+            std::thread::spawn(reg).join().expect("registration thread");
+        } else {
+            reg();
+        }
+        ops.infix.insert("xop".into(), InfixInfo { prec: *prec, left: *left, setter: false });
+        let mut tmp = WorkerOut::default();
+        for t in trees[1].iter().chain(trees[2].iter()).chain(trees[3].iter()) {
+            let mut n = 0;
+            let t = relabel(t, &mut n, &rot);
+            for parens in [Parens::Minimal, Parens::Full] {
+                let text = parse::print(&t, &ops, parens);
+                compare(&text, &t, &ops, "x", &mut tmp);
+            }
+        }
+        let fails = std::mem::take(&mut tmp.fails);
+        out.merge(tmp);
+        for (k, (f, _)) in fails {
+            out.fail(k, format!("reregister|{:?}{}", h, tail), format!("after registration {} of the history, {}: {}", step + 1, f.case, f.detail));
+        }
+    }
+}
+
 pub fn programs(tier: Tier) -> Vec<Ast> {
     program_trees(tier.pick(0, 1))
 }
@@ -139,6 +180,13 @@ impl Prop for C02 {
                     chunk: (s.len() / 64).max(2000),
                     timeout: Duration::from_secs(1200),
                     what: format!("token sequences of <= {} tokens accepted by the reference parser", s.max_len),
+                },
+                Stage {
+                    name: "reregister".into(),
+                    len: 2 * super::c12::rereg_histories().len() as u64,
+                    chunk: 1,
+                    timeout: Duration::from_secs(60),
+                    what: "histories of <= 3 registrations of one infix operator over 6 (precedence, associativity) pairs, each in a fresh process, with and without the re-registrations being made by another (joined) thread; after every step every tree of <= 3 infix nodes over {xop, *, +, in} (minimal and full parentheses) must parse to itself under the table of that moment".into(),
                 },
             ],
             rule: format!(
@@ -187,6 +235,17 @@ impl Prop for C02 {
             out.count("transitions", 2 * (b - a));
             return;
         }
+        if stage == 2 {
+            let hs = super::c12::rereg_histories();
+            for i in a..b {
+                out.idx = Some(i);
+                let (h, xthread) = (&hs[i as usize % hs.len()], i as usize >= hs.len());
+                run_rereg(h, xthread, out);
+                out.count("states", h.len() as u64);
+                out.count("transitions", h.len() as u64);
+            }
+            return;
+        }
         let s = seqs(tier);
         for i in a..b {
             out.idx = Some(i);
@@ -209,6 +268,10 @@ impl Prop for C02 {
         if stage == 0 {
             let ops = OpSet::builtin();
             return show(&parse::print(&programs(tier)[i as usize], &ops, Parens::Minimal));
+        }
+        if stage == 2 {
+            let hs = super::c12::rereg_histories();
+            return format!("{:?}{}", hs[i as usize % hs.len()], if i as usize >= hs.len() { " re-registrations by another thread" } else { "" });
         }
         show(&seqs(tier).spaced(i))
     }
